@@ -17,6 +17,7 @@ import traceback
 
 VERIF = os.path.dirname(os.path.dirname(os.path.abspath(__file__)))
 REPO = os.environ.get("VERIF_REPO", "/repo")
+OUT = os.environ.get("VERIF_OUT") or os.path.dirname(os.path.dirname(os.path.abspath(__file__)))   # development runs against scratch trees may write their evidence / replays elsewhere
 JOBS = int(os.environ.get("VERIF_JOBS", "0")) or (os.cpu_count() or 4)
 
 
@@ -297,11 +298,11 @@ class Run(object):
                 seen_known.append(key)
             else:
                 new.append(key)
-        os.makedirs(os.path.join(VERIF, "replays"), exist_ok=True)
+        os.makedirs(os.path.join(OUT, "replays"), exist_ok=True)
         lines = []
         def write_replay(key, overwrite=True):
             v = part.violations[key]
-            path = os.path.join(VERIF, "replays", "%s-%s.json" % (self.prop, safe(key.split("/", 1)[-1])))
+            path = os.path.join(OUT, "replays", "%s-%s.json" % (self.prop, safe(key.split("/", 1)[-1])))
             if overwrite or not os.path.exists(path):
                 doc = {"property": self.prop, "key": key, "tier": self.tier, "seed": self.seed, "repo_head": head, "dirty": dirty,
                        "what": v["what"], "count": v["count"], "case": v["case"], "expected": v["expected"], "observed": v["observed"],
@@ -346,8 +347,8 @@ class Run(object):
             "violations": len(new), "known_findings_seen": seen_known, "new_violation_keys": new,
             "repo_head": head, "dirty": dirty, "vacuity_guards_failed": self.vacuous,
         }
-        os.makedirs(os.path.join(VERIF, "evidence"), exist_ok=True)
-        evpath = os.path.join(VERIF, "evidence", "%s.json" % self.prop)
+        os.makedirs(os.path.join(OUT, "evidence"), exist_ok=True)
+        evpath = os.path.join(OUT, "evidence", "%s.json" % self.prop)
         with open(evpath, "w") as f:
             json.dump(ev, f, indent=1, sort_keys=True)
         try:
